@@ -249,6 +249,11 @@ def run_path(I: Interp, finfo: FuncInfo, con: Contract):
         # satisfiable here, otherwise every postcondition of this path would be discharged from a contradiction
         if not bounded_mode and not st.consistent():
             st.cfg["vacuous_exit"] = True
+        elif not bounded_mode and not st.cfg.get("vacuous_exit") and not st.consistent(st.cfg.get("vacuity_timeout_ms", 1500), full=True):
+            # contradictory only together with quantified facts (callee postconditions, container well-formedness, liveness):
+            # usually a branch that those facts exclude (e.g. `None in open_ports`), which branch pruning -- quantifier-free --
+            # cannot see.  Not refused, but recorded in the evidence so that an over-strong assumption does not go unnoticed.
+            st.log.append(f"INFEASIBLE-PATH {st.fuc_name} path {''.join(str(x) for x in st.trace)}: excluded by quantified assumptions (its obligations hold trivially)")
         for label, g in goals:
             st.oblige("post", label, g)
         for nm in con.invariants:
